@@ -366,6 +366,50 @@ func (m *C15Mon) Wait(h *Hand, s *pokerface.GameState) {
 	}
 	closed := ev == "GameClosed"
 	h.Rep.Inc("states_viewed")
+	live := -1
+	if !closed && len(s.Players) > 0 {
+		if h.ReplayTrace == nil {
+			if h.R.Intn(50) == 0 {
+				live = h.R.Intn(len(s.Players))
+				h.Trace = append(h.Trace, TraceStep{Op: Op{Name: "liveview", Seat: live}, Kind: "probe"})
+			}
+		} else if k := len(h.ReplayTrace) - 1; k >= 0 && h.ReplayTrace[k].Op.Name == "liveview" && h.replayPos >= k {
+			live = h.ReplayTrace[k].Op.Seat
+		}
+	}
+	if live >= 0 && live < len(s.Players) {
+		// a view prepared on the engine's own state object (the call is destructive, so the hand ends
+		// here): what the viewer can reach in memory - his own lists re-sliced to capacity included - must
+		// not hold anybody else's cards
+		v := live
+		allowed := map[string]bool{}
+		for _, x := range s.Status.Board {
+			allowed[x] = true
+		}
+		for _, x := range s.Players[v].HoleCards {
+			allowed[x] = true
+		}
+		s.AsPlayer(v)
+		h.Rep.Inc("views_on_the_live_state_object")
+		h.Rep.Inc("oracle_evaluations")
+		lists := [][]string{s.Meta.Deck, s.Status.Burned, s.Status.Board}
+		for _, p := range s.Players {
+			lists = append(lists, p.HoleCards)
+			if p.Combination != nil {
+				lists = append(lists, p.Combination.Cards)
+			}
+		}
+		for _, l := range lists {
+			for _, x := range l[:cap(l)] {
+				if len(x) == 2 && !allowed[x] && cardRe.MatchString(`"`+x+`"`) {
+					h.Fail("C15/leak-in-backing-array", "viewer=seat,live-state-object", fmt.Sprintf("AsPlayer(%d) on the game's own state object at %s: hidden card %s is still reachable by re-slicing a list of the view to its capacity", v, ev, x))
+					return
+				}
+			}
+		}
+		h.Aborted = true
+		return
+	}
 	nfold := 0
 	for _, p := range s.Players {
 		if p.Fold {
